@@ -119,10 +119,44 @@ def op_task(t):
     return dict(op=op, n=n, distinct=len(distinct), violations=viols, sample=sample)
 
 
+def sweep_task(t):
+    """every content / name length in a window: command lengths land on every residue of any power-of-two block size"""
+    op, lo, hi = t
+    viols = []
+    n = 0
+    for k in range(lo, hi):
+        if op == "putscript":
+            args = ("s", "a" * k)
+        elif op == "checkscript":
+            args = ("b" * k,)
+        else:
+            args = ("n" * k,)
+        srv = refms.RefServer(store={"a": b"keep;\r\n"}, active="a", version=True)
+        s = wire.open_session(srv)
+        m = wire.mark(s)
+        o = s.call(op, *args)
+        data = wire.written_since(s, m)
+        n += 1
+        bad = judge(op, list(args), data, o)
+        if bad is None and srv.violations:
+            bad = ("protocol-violation", srv.violations[0])
+        if bad:
+            viols.append({"property": "C08", "engine": "wire", "signature": ["C08", op, "length-sweep", bad[0]],
+                          "what": "%s with a %d-character argument: %s" % (op, k, bad[1]), "case": {"op": op, "sweep_len": k},
+                          "witness": "%s with a %d-character argument" % (op, k), "observed": repr(data[-40:])})
+    return dict(op=op + "-sweep", n=n, distinct=1, violations=viols, sample=None)
+
+
 def run(tier, seed):
     maxlen = 3 if tier == "quick" else 4
     ops = ["havespace", "getscript", "putscript", "checkscript", "deletescript", "renamescript", "setactive", "listscripts", "capability"]
     res = pool.run_tasks("checks.c08:op_task", [(op, maxlen) for op in ops])
+    top = 9000 if tier == "quick" else 70000
+    sw = []
+    for op in ("putscript", "checkscript", "deletescript"):
+        for lo in range(0, top, 500):
+            sw.append((op, lo, min(top, lo + 500)))
+    res += pool.run_tasks("checks.c08:sweep_task", sw, chunksize=2)
     n = sum(r["n"] for r in res)
     viols = []
     for r in res:
@@ -130,7 +164,8 @@ def run(tier, seed):
     cov = dict(states=n, transitions=n, traces_validated_against_impl=n, evaluations=n, distinct_nontrivial=sum(r["distinct"] for r in res),
                rule="E3: 9 operations x every string of length 1..%d over %r plus look-alikes %r in every string position; sizes %r; the bytes "
                     "written during the call are parsed by the strict RFC 5804 command parser (exactly one command, intended verb, arguments "
-                    "decode to the caller's values) unless the call raised Error without writing" % (maxlen, CHARS, [s if len(s) < 20 else "1025xa" for s in SPECIAL], SIZES),
+                    "decode to the caller's values) unless the call raised Error without writing; plus a sweep of EVERY argument length 0..9000/70000 for putscript / checkscript / "
+                    "deletescript" % (maxlen, CHARS, [s if len(s) < 20 else "1025xa" for s in SPECIAL], SIZES),
                samples=[r["sample"] for r in res if r["sample"]][:5] or [{"note": "none"}], exhaustive=True)
     return dict(violations=viols, coverage=cov, harness_errors=[],
                 assumptions=["strict parser: quoted strings with only \\\\ and \\\" escapes and no CR/LF/NUL, <= 1024 octets; literals non-synchronising with exact octet count"])
@@ -139,6 +174,9 @@ def run(tier, seed):
 def replay(payload):
     c = payload["case"]
     op = c["op"]
+    if "sweep_len" in c:
+        r = sweep_task((op, c["sweep_len"], c["sweep_len"] + 1))
+        return r["violations"]
     args = tuple(c["args"])
     expected = list(args)
     srv = refms.RefServer(store={"a": b"keep;\r\n"}, active="a", version=True)
